@@ -82,6 +82,12 @@ def run_case(case):
         sc = earth.density(float(r))
         v.check(np.ndim(sc) == 0, "density(scalar) is scalar", ndim=int(np.ndim(sc)))
         v.close("density == reference table", max(abs(a_ - ref), abs(float(sc) - ref)), 1e-12, r=float(r), array=float(a_), scalar=float(sc), ref=ref)
+    # ---- integer-typed radii (python ints, integer arrays, lists of ints) denote the same radii
+    ri = np.array([int(x) for x in rng.uniform(0, 1.05 * R, size=6)] + [int(e) for e in edges[:-1]] + [0, int(R) + 5], dtype=np.int64)
+    want = np.array([prem.density(float(x), shells, R) for x in ri])
+    for name, got in (("integer array", np.asarray(earth.density(ri), float)), ("list of ints", np.asarray(earth.density([int(x) for x in ri]), float))):
+        v.close("density of integer-typed radii == density of the same radii as floats", float(np.max(np.abs(got - want))), 1e-12, input=name, radii=ri[:4].tolist(), got=got[:4].tolist(), want=want[:4].tolist())
+    v.close("density of integer-typed radii == density of the same radii as floats", abs(float(earth.density(int(ri[0]))) - want[0]), 1e-12, input="python int", radius=int(ri[0]))
     # ---- slant depth
     ep = np.array(case["endpoint"])
     d = _dir(case["ct"], case["phi"])
